@@ -4,8 +4,8 @@
 from .models import Tree, m5, norm, norm_suffix, basename, render_plain
 
 NAME_POOL = ["10-a", "9-b", "100-c", "A", "a", "B", "_x", "~y", "0", "00", ".h", "sp ace", "\xe9t\xe9", "a.b", "-dash", "%s%n", "50%d"]
-KEYS = ["x", "y", "z", "w"]
-SECS = ["A", "B", "Sec 1"]
+KEYS = ["x", "y", "z", "w", "X", "xy"]        # incl. a pair that differs only in case and a key that is a prefix of another
+SECS = ["A", "B", "Sec 1", "a", "AB"]
 MAIN_STATES = ["absent", "regular", "empty", "devnull"]
 
 
@@ -18,6 +18,8 @@ def io_cfg(rng, faults=True):
         cfg["fill"] = rng.pick([0xA5, 0x00, 0xFF, 0x5B, 0x20, 0x0A, 0x23])
         # errno is unspecified after a successful libc call and arbitrary when the caller enters the library
         cfg["errno_noise"] = rng.chance(0.5)
+        # allocator behaviour: a third of the runs use the executor whose heap hands freed addresses out again at once
+        cfg["quarantine0"] = rng.chance(0.33)
     return cfg
 
 
@@ -122,6 +124,16 @@ def apply_dotdot(world):
     w["read"]["dotdot"] = True
     w["nodes"] += decoys + [{"p": "$ROOT/rel/v2", "t": "d"}, {"p": "$ROOT/cur", "t": "l", "to": "$ROOT/rel/v2"}]
     return w
+
+
+def enum_positions(n, seed, cap=24):
+    """positions of a consulted list at which a single fault is injected: all of them, or - for the rare trees with
+    hundreds of files - the first two, the last two and a seeded sample (complete enumeration stays the rule)"""
+    if n <= cap:
+        return list(range(n))
+    from .core import Rng
+    r = Rng(seed)
+    return sorted(set([0, 1, n - 2, n - 1] + r.sample(range(n), cap - 4)))
 
 
 def single_file_world(rng, w):
@@ -350,6 +362,9 @@ def gen_layered_world(rng, i, two_layer=None, want_files=True, small=False, allo
             if rng.chance(0.04):
                 # a crowded directory: growth of the consulted list well past its initial size
                 names = names + ["%02d-n" % k for k in rng.sample(range(10, 60), rng.randint(6, 22))]
+            elif rng.chance(0.006):
+                # hundreds of drop-ins in one directory
+                names = names + ["%03d-m" % k for k in rng.sample(range(100, 600), rng.randint(120, 300))]
             if suf and rng.chance(0.08):
                 # names that contain the suffix once more before their end: <x>.conf.conf, <x>.conf.d.conf
                 names = names + [n_ for n_ in rng.subset(["twice" + suf, "mid" + suf + ".d", suf[1:] + "-first"], 1, 2) if n_ not in used_here]
@@ -358,6 +373,8 @@ def gen_layered_world(rng, i, two_layer=None, want_files=True, small=False, allo
                 fid += 1
                 kind = rng.random()
                 node = {"p": "%s/%s%s" % (d, nm, suf), "t": "f", "entries": file_entries(rng, fid, maxkeys=4)}
+                if nm.endswith("-m") and len(nm) == 5:
+                    node["entries"] = node["entries"][:1]
                 if kind < 0.07:
                     node = {"p": "%s/%s%s" % (d, nm, suf), "t": "f", "entries": []}
                 elif kind < 0.12:
@@ -377,6 +394,8 @@ def gen_layered_world(rng, i, two_layer=None, want_files=True, small=False, allo
     for n in nodes:
         if n["t"] == "f":
             n["delim"] = dch
+            if rng.chance(0.1):
+                n["nonl"] = True          # the last line of the file has no newline
             if rng.chance(0.12):
                 # section headers without any live key (all keys commented out): they carry nothing
                 n["empty_secs"] = rng.subset(SECS + ["Z"], 1, 2)
@@ -413,6 +432,8 @@ def tree_plan(nodes):
                 e["c"] = "\n".join([l for l in lines if l != "" or True]).rstrip("\n") + "\n" + "".join(t + "\n" for t in tail)
             if "c" not in n and n.get("noise") is not None and n.get("entries"):
                 e["c"] = noisy(e["c"], n["noise"], n.get("cchars", "#"), trail=not n.get("notrail"))
+            if n.get("nonl") and "c" not in n and e["c"].endswith("\n"):
+                e["c"] = e["c"].rstrip("\n")
         elif n["t"] == "l":
             e["to"] = n["to"]
         for k in ("uid", "gid", "mode"):
